@@ -398,3 +398,58 @@ where
     }
   }
 }
+
+// ---------------------------------------------------------------- C12
+pub struct LateStoreBehavior<Item, S> { subject: S, value: MutRc<Item> }
+impl<Item: Clone, Err, S: Observer<Item, Err>> Observer<Item, Err> for LateStoreBehavior<Item, S> {
+  fn next(&mut self, value: Item) {
+    Observer::next(&mut self.subject, value.clone());
+    *self.value.rc_deref_mut() = value;
+  }
+  fn error(self, err: Err) { self.subject.error(err) }
+  fn complete(self) { self.subject.complete() }
+  fn is_finished(&self) -> bool { self.subject.is_finished() }
+}
+impl<Item: Clone, Err, O, S> Observable<Item, Err, O> for LateStoreBehavior<Item, S>
+where
+  S: Observable<Item, Err, O>,
+  O: Observer<Item, Err>,
+{
+  type Unsub = S::Unsub;
+  // joins without replaying the current value
+  fn actual_subscribe(self, observer: O) -> Self::Unsub { self.subject.actual_subscribe(observer) }
+}
+
+// ---------------------------------------------------------------- C11
+pub struct EagerConnectable<S, Subject> { source: S, subject: Subject }
+impl<S, Subject> EagerConnectable<S, Subject> {
+  /// subscribes the source while the connectable is being built
+  pub fn new<Item, Err>(source: S) -> Subject
+  where
+    Subject: Default + Clone + Observer<Item, Err>,
+    S: Observable<Item, Err, Subject>,
+  {
+    let subject = Subject::default();
+    source.actual_subscribe(subject.clone());
+    subject
+  }
+  pub fn connect<Item, Err>(self) -> S::Unsub
+  where
+    S: Observable<Item, Err, Subject>,
+    Subject: Observer<Item, Err>,
+  {
+    self.source.actual_subscribe(self.subject)
+  }
+}
+pub struct CountingRefCount<Subject, U> { subject: Subject, subscription: U }
+impl<U: Subscription, Subject: Subscription + SubjectSize> Subscription for CountingRefCount<Subject, U> {
+  // asks for the size before leaving
+  fn unsubscribe(self) {
+    let empty = self.subject.is_empty();
+    self.subscription.unsubscribe();
+    if empty {
+      self.subject.unsubscribe()
+    }
+  }
+  fn is_closed(&self) -> bool { self.subscription.is_closed() }
+}
